@@ -1305,6 +1305,28 @@ def normalise_conditions(trees: Dict[str, ast.Module]) -> Dict[str, str]:
     return out
 
 
+def beta_reduce(trees: Dict[str, ast.Module]) -> Dict[str, str]:
+    """``(lambda: E)()`` -> ``E``: what is left when a helper that takes a zero-argument callable (``_run_guarded(step)``) was inlined at a
+    site that passed a lambda.  Only parameterless lambdas called without arguments - nothing to bind, evaluated exactly once, in place."""
+    n = 0
+
+    class B(ast.NodeTransformer):
+        def visit_Call(self, node):
+            nonlocal n
+            node = self.generic_visit(node)
+            f = node.func
+            if isinstance(f, ast.Lambda) and not node.args and not node.keywords:
+                a = f.args
+                if not (a.args or a.posonlyargs or a.kwonlyargs or a.vararg or a.kwarg):
+                    n += 1
+                    return ast.copy_location(f.body, node)
+            return node
+    for tree in trees.values():
+        B().visit(tree)
+        ast.fix_missing_locations(tree)
+    return {"<lambdas-called>": f"{n} parameterless lambda(s) called on the spot read as their body"} if n else {}
+
+
 def inline_new_helpers(trees: Dict[str, ast.Module]) -> Dict[str, str]:
     known = load_known()
     if known is None:
@@ -1314,6 +1336,7 @@ def inline_new_helpers(trees: Dict[str, ast.Module]) -> Dict[str, str]:
     report.update(name_locals(trees))
     report.update(propagate_new_constants(trees))
     report.update(Inliner(trees, known).run())
+    report.update(beta_reduce(trees))
     if not os.environ.get("XSM_NO_COND_NORMALISE"):
         report.update(normalise_conditions(trees))
     return report
